@@ -21,3 +21,4 @@ import Brax.Lemmas.KinEquiv
 import Brax.Props.C19
 import Brax.Props.C05
 import Brax.Props.C13
+import Brax.Props.C11
